@@ -38,6 +38,9 @@ structure WF (st : St) : Prop where
   types : ∀ id nm, st.types id = some nm → ∃ d s, st.decls nm = some d ∧ d.scope = some s
   /-- the pre-declared primitive types own a scope (`insert_type` in `declare_builtin_types`) -/
   prims : ∀ k d, st.decls k = some d → d.kind = .prim → ∃ s, d.scope = some s
+  /-- scopes are named by their path: the scope a declaration owns is the scope it sits in
+      extended by its own name (the quotient by scope numbering, see the model's header) -/
+  paths : ∀ k d s, st.decls k = some d → d.scope = some s → s = k.scope ++ [k.ident]
 
 theorem ext_insertDecl {st : St} {k : RName} {d : Decl} (h : st.decls k = none) :
     Ext st (st.insertDecl k d) := by
@@ -48,14 +51,19 @@ theorem ext_insertDecl {st : St} {k : RName} {d : Decl} (h : st.decls k = none) 
   · simp [hk, h']
 
 theorem wf_insertDecl {st : St} {k : RName} {d : Decl} (h : st.decls k = none) (hw : WF st)
-    (hp : d.kind ≠ .prim) : WF (st.insertDecl k d) := by
-  refine ⟨fun id nm hn => ?_, fun k' d' hd' hk' => ?_⟩
+    (hp : d.kind ≠ .prim) (hpath : ∀ s, d.scope = some s → s = k.scope ++ [k.ident]) :
+    WF (st.insertDecl k d) := by
+  refine ⟨fun id nm hn => ?_, fun k' d' hd' hk' => ?_, fun k' d' s' hd' hs' => ?_⟩
   · obtain ⟨d', s, hd, hs⟩ := hw.types id nm hn
     exact ⟨d', s, (ext_insertDecl h).decls _ _ hd, hs⟩
   · simp only [St.insertDecl] at hd'
     by_cases hk : k' = k
     · simp [hk] at hd'; subst hd'; exact absurd hk' hp
     · simp [hk] at hd'; exact hw.prims k' d' hd' hk'
+  · simp only [St.insertDecl] at hd'
+    by_cases hk : k' = k
+    · simp [hk] at hd'; subst hd'; subst hk; exact hpath s' hs'
+    · simp [hk] at hd'; exact hw.paths k' d' s' hd' hs'
 
 theorem ext_insertType {st : St} {id : TyId} {nm : RName} (h : st.types id = none) :
     Ext st (st.insertType id nm) := by
@@ -145,12 +153,12 @@ theorem declareModule_good {st : St} (hw : WF st) (scope : ScopeId) (n : Name) :
   | some d => simp
   | none =>
     simp only
-    refine ⟨ext_insertDecl hd, wf_insertDecl hd hw (by simp), ?_⟩
+    refine ⟨ext_insertDecl hd, wf_insertDecl hd hw (by simp) (by simp), ?_⟩
     simp [St.getScopeOf, St.insertDecl]
 
 theorem wf_insertType {st : St} {id : TyId} {nm : RName} (hw : WF st)
     (h : ∃ d s, st.decls nm = some d ∧ d.scope = some s) : WF (st.insertType id nm) := by
-  refine ⟨fun i n hi => ?_, hw.prims⟩
+  refine ⟨fun i n hi => ?_, hw.prims, hw.paths⟩
   simp only [St.insertType] at hi ⊢
   by_cases hid : i = id
   · simp [hid] at hi; subst hi; exact h
@@ -169,7 +177,7 @@ theorem declareType_good {st : St} (hw : WF st) (scope : ScopeId) (n : Name) (id
       cases hd : st.decls ⟨scope, n⟩ with
       | none =>
         simp only [Good]
-        have hw1 := wf_insertDecl (d := ⟨.type id, some (scope ++ [n])⟩) hd hw (by simp)
+        have hw1 := wf_insertDecl (d := ⟨.type id, some (scope ++ [n])⟩) hd hw (by simp) (by simp)
         refine ⟨(ext_insertDecl hd).trans (ext_insertType (by simpa [St.insertDecl] using ht)), ?_⟩
         exact wf_insertType hw1 ⟨⟨.type id, some (scope ++ [n])⟩, scope ++ [n], by simp [St.insertDecl], rfl⟩
       | some d =>
@@ -196,7 +204,7 @@ theorem declareFunction_good {st : St} (hw : WF st) (lex : Name → Lex) (scope 
         cases hd : st.decls ⟨scope, n⟩ with
         | some d => trivial
         | none =>
-          refine ⟨ext_insertDecl hd, wf_insertDecl hd hw ?_⟩
+          refine ⟨ext_insertDecl hd, wf_insertDecl hd hw ?_ (by simp)⟩
           cases m <;> simp
 
 theorem declareConstant_good {st : St} (hw : WF st) (scope : ScopeId) (n : Name)
@@ -208,7 +216,7 @@ theorem declareConstant_good {st : St} (hw : WF st) (scope : ScopeId) (n : Name)
   | ok r' =>
     cases hd : st.decls ⟨scope, n⟩ with
     | some d => trivial
-    | none => exact ⟨ext_insertDecl hd, wf_insertDecl hd hw (by simp)⟩
+    | none => exact ⟨ext_insertDecl hd, wf_insertDecl hd hw (by simp) (by simp)⟩
 
 theorem implScope_noPanic {st : St} (hw : WF st) (ty : TyId) : ∀ s, implScope ty st ≠ .panic s := by
   intro s h
@@ -499,7 +507,7 @@ theorem leaf_functions (scope : ScopeId) (i : Item) (st : St) (hw : WF st) (_ : 
   | function n ps r tag =>
     simpa [passLeaf, QFlat] using good1_of_good (declareFunction_good hw lex scope n ps r tag false)
   | impl ty ch =>
-    simp only [passLeaf]
+    simp only [passLeaf, implScopeC_fixed]
     cases hs : implScope ty st with
     | panic s => exact absurd hs (implScope_noPanic hw ty s)
     | err e => simp [Good1]
@@ -518,7 +526,7 @@ theorem leaf_constants (scope : ScopeId) (i : Item) (st : St) (hw : WF st) (hq :
   | constant n ty tag =>
     simpa [passLeaf, QTrue] using good1_of_good (declareConstant_good hw scope n ty tag)
   | impl ty ch =>
-    simp only [passLeaf]
+    simp only [passLeaf, implScopeC_fixed]
     cases hs : implScope ty st with
     | panic s => exact absurd hs (implScope_noPanic hw ty s)
     | err e => simp [Good1]
@@ -532,7 +540,7 @@ end
 /-! ## pass 5 -/
 
 theorem wf_insertImport {st : St} (hw : WF st) (s : ScopeId) (n : Name) (t : RName) :
-    WF (st.insertImport s n t) := ⟨hw.types, hw.prims⟩
+    WF (st.insertImport s n t) := ⟨hw.types, hw.prims, hw.paths⟩
 
 theorem walkPath_noPanic (start : ScopeId) (st : St) :
     ∀ (path : List Name) (cur : ScopeId) (s : Site), walkPath Cfg.fixed start st cur path ≠ .panic s
@@ -644,7 +652,18 @@ theorem register_good (lex : Name → Lex) {st : St} (hw : WF st) (items : Items
   · trivial
 
 theorem wf_init (prims : List (Name × TyId)) (others : List Name) : WF (St.init prims others) := by
-  refine ⟨fun id nm h => ?_, fun k d h hk => ?_⟩
+  refine ⟨fun id nm h => ?_, fun k d h hk => ?_, fun k d s h hs' => ?_⟩
+  rotate_left 2
+  · simp only [St.init] at h
+    by_cases hs : k.scope = []
+    · simp only [hs, if_true] at h
+      cases hg : prims.find? (fun q => q.1 = k.ident) with
+      | some q => simp [hg] at h; subst h; simp at hs'; simp [hs, hs'.symm]
+      | none =>
+        simp [hg] at h
+        obtain ⟨_, rfl⟩ := h
+        simp at hs'
+    · simp [hs] at h
   · simp only [St.init] at h ⊢
     cases hf : prims.find? (fun p => p.2 = id) with
     | none => simp [hf] at h
